@@ -4,3 +4,5 @@ pub mod libapi;
 pub mod refmodel;
 pub mod gen;
 pub mod props;
+pub mod arb;
+pub mod fuzzglue;
